@@ -28,6 +28,7 @@ var ruleGroups = map[string]func(*Ctx){
 	"R1": rulesStatus, "R2": rulesStatus,
 	"G1": rulesLife, "G3": rulesLife, "G4": rulesLife, "G5": rulesLife, "G6": rulesLife,
 	"X1": rulesTransport, "X2": rulesTransport, "X3": rulesTransport, "W1": rulesTransport,
+	"M4": rulesExtra3, "M5": rulesExtra3, "X4": rulesExtra3, "B6": rulesExtra3, "G8": rulesExtra3,
 	"S1": rulesExtra2, "G7": rulesExtra2, "Q5": rulesExtra2, "T5": rulesExtra2, "I7": rulesExtra2,
 	"I6": rulesExtra, "T2": rulesExtra, "P4": rulesExtra, "B4": rulesExtra, "B5": rulesExtra, "T3": rulesExtra, "T4": rulesExtra,
 	"M1": rulesAddr, "M2": rulesAddr, "M3": rulesAddr, "D2": rulesAddr,
@@ -107,7 +108,7 @@ var propSpecs = map[string]*propSpec{
 	"C08": {ID: "C08", Rules: []ruleRef{only("I1", "eventlogstore", "basestore"), {Rule: "I5"}, only("I6", "eventlogstore", "basestore"), {Rule: "I7"}},
 		Explanation: "Event log listing is the log's total order (I1 for the event and base index); the slice the query reverses in place is freshly built by the installed index on every call (I5).",
 		NotDecided:  "append-only/stability (dependency); exact windows (integer arithmetic over positions and amounts: a solver/symbolic problem, another technique family)."},
-	"C09": {ID: "C09", Rules: rr("B1", "B2", "B4", "B5"), Controls: []string{"B1"},
+	"C09": {ID: "C09", Rules: rr("B1", "B2", "B4", "B5", "B6"), Controls: []string{"B1"},
 		Explanation: "Every subscription to store-scoped event types on a bus that may be the instance-wide one either filters by the event's database address before any effect, or is made on a bus private to the store (B1); both receive paths route a heads message by the address it names before Sync (B2).",
 		NotDecided:  "interference through the shared IPFS node or the pubsub router."},
 	"C10": {ID: "C10", Rules: []ruleRef{{Rule: "L1"}, only("Q1", "rejected-join"), {Rule: "I4"}, {Rule: "T1"}, {Rule: "T2"}, {Rule: "T4"}}, Controls: []string{"L1", "T1"},
@@ -122,7 +123,7 @@ var propSpecs = map[string]*propSpec{
 	"C13": {ID: "C13", Rules: []ruleRef{only("N1", "basestore"), {Rule: "N3"}, only("X3", "basestore"), only("P2", "snapshot", "queue")}, Controls: []string{"N3"},
 		Explanation: "Both 16-bit length prefixes of the snapshot writer are guarded by a range test (N1); make-then-fill loops allocate with the length of the collection they range over (N3: GetQueue); writer and loader use the same prefix width and byte order (X3); the snapshot and queue keys are written and read under the same names (P2).",
 		NotDecided:  "round-trip equality of the decoded log."},
-	"C14": {ID: "C14", Rules: []ruleRef{{Rule: "M1"}, {Rule: "M2"}, {Rule: "M3"}, only("A4", "baseorbitdb")},
+	"C14": {ID: "C14", Rules: []ruleRef{{Rule: "M1"}, {Rule: "M2"}, {Rule: "M3"}, {Rule: "M4"}, {Rule: "M5"}, only("A4", "baseorbitdb")},
 		Explanation: "No clock, randomness, process identity or map-iteration order flows into what is written on the address-determination cone (M1); the address prefix constant agrees between printing and parsing (M2); the local-presence test dominates the marker write in Create and store creation in Open, and its outcome can refuse (M3); controller and store type come from the manifest (A4 iii).",
 		NotDecided:  "injectivity and equality of content addresses; string round trip."},
 	"C15": {ID: "C15", Rules: rr("J1"), Controls: []string{"J1"},
@@ -131,16 +132,16 @@ var propSpecs = map[string]*propSpec{
 	"C16": {ID: "C16", Rules: []ruleRef{{Rule: "E1"}, {Rule: "E2"}, except("E3", "accesscontroller"), {Rule: "E4"}, {Rule: "E5"}}, Controls: []string{"E1"},
 		Explanation: "View refresh and head persistence dominate EventWrite/EventReplicated (E1); every acknowledged write emits exactly one EventWrite carrying the appended entry (E2); each emitter is only given values of the type it was created for (E3); the legacy emitter is on the store's bus on every initialiser path (E4); sends on a legacy subscriber's delivery channel are in one goroutine or all under the queue lock (E5).",
 		NotDecided:  "the bus's own FIFO/back-pressure semantics (dependency)."},
-	"C17": {ID: "C17", Rules: rr("P3"), Controls: []string{"P3"},
+	"C17": {ID: "C17", Rules: []ruleRef{{Rule: "P3"}, only("I4", "Append")}, Controls: []string{"P3"},
 		Explanation: "The value persisted as local head is produced (Append) and written (Put) inside one exclusive critical section that is not released in between (P3).",
 		NotDecided:  "distinctness of appended entries (the dependency's append lock)."},
-	"C18": {ID: "C18", Rules: rr("G1", "G3", "G4", "G5", "G6", "B3"),
+	"C18": {ID: "C18", Rules: rr("G1", "G3", "G4", "G5", "G6", "G8", "B3", "B6"),
 		Explanation: "Every goroutine's loops have an owner-tied exit and helper goroutines never block on a channel whose receiver may have left (G1); Close reaches cancel, Replicator.Stop, cache close, every emitter it created and the legacy subscribers, every bus subscription is closed, instance Close reaches its parts (G3); no call made under a lock re-acquires the same lock class (G4); Close starts with the closed test, Drop closes first and removes only the path derived from the database's own address (G5); condition variables are signalled with their lock held (G6); shared table entries are not bound to one caller's context (B3).",
 		NotDecided:  "prompt return of every post-close operation (depends on leveldb and the bus)."},
 	"C19": {ID: "C19", Rules: rr("R1", "R2"),
 		Explanation: "The status is written only by the recalculation helpers and reset only by Close (R1); the helpers are executed abstractly on every weak ordering of (arg, logLen, oldMax, progress, progress+1): neither value decreases and progress <= maximum is re-established (R2).",
 		NotDecided:  "progress = maximum at rest; relation to Lamport times."},
-	"C20": {ID: "C20", Rules: []ruleRef{{Rule: "X1"}, {Rule: "X2"}, only("X3", "directchannel"), {Rule: "N2"}, only("N1", "directchannel"), except("G7", "replicator")}, Controls: []string{"N2"},
+	"C20": {ID: "C20", Rules: []ruleRef{{Rule: "X1"}, {Rule: "X2"}, only("X3", "directchannel"), {Rule: "N2"}, only("N1", "directchannel"), except("G7", "replicator"), {Rule: "X4"}}, Controls: []string{"N2"},
 		Explanation: "All three subscription read loops deliver only on the sender ≠ self outcome (X1); the pairwise channel name is the join of the sorted pair {local, remote} (X2); frame writer/reader use matching varint codecs, the reader's bound check precedes allocation, the delivered buffer is the fully read one and is attributed to the stream's remote peer (X3, N1, N2).",
 		NotDecided:  "exactly-once of the polling membership diff; byte-for-byte delivery."},
 }
